@@ -280,7 +280,13 @@ class MultiName(object):
                 allnames.extend(n.alt_names)
             else:
                 allnames.append(n)
-        self.alt_names = list(set(allnames))
+        # alternatives in source order of the definitions ("undefined" first),
+        # whatever order they arrive in (rows are built through sets)
+        unique = []  # type: list[Name | UndefinedName]
+        for n in allnames:
+            if n not in unique:
+                unique.append(n)
+        self.alt_names = sorted(unique, key=lambda n: getattr(n, 'declared_at', (0, 0)))
         self.name = self.alt_names[0].name
 
     def __repr__(self):  # type: () -> str
